@@ -284,3 +284,6 @@ Definition construct (its : list item) (s : strategy) : cstate * (Z + err) :=
         end
       else append empty_circuit its s
   end.
+
+(* "the placement cache, whenever present, equals the summary recomputed from the moments" *)
+Definition cache_ok (c : cstate) : Prop := forall p, cache c = Some p -> cache_matches p (moms c).
